@@ -1,7 +1,7 @@
 """Installing the symbolic numpy into the real numdifftools modules.
 
 ``traced()`` is a context manager: inside it the module globals ``np`` (and the
-C-backed ``convolve``) of the numdifftools modules are rebound to the symbolic
+C kernel ``convolve1d``) of the numdifftools modules are rebound to the symbolic
 stand-ins; outside it the library is untouched (replays and trace validation run
 against the untouched library).
 """
@@ -65,40 +65,45 @@ def convolve1d_ref(seq, weights, axis=0, origin=0, **kw):
     return out
 
 
-def convolve_ref(sequence, rule, **kwds):
-    """stand-in for numdifftools.extrapolation.convolve (wrapper + C kernel)"""
-    seq = sequence if isinstance(sequence, np.ndarray) else np.asarray(sequence)
-    if not sn.has_sym(seq) and not sn.has_sym(np.asarray(rule)):
-        from numdifftools import extrapolation as ex
-        return _REAL_CONVOLVE[0](sequence, rule, **kwds)
-    r = convolve1d_ref(seq, rule, **kwds)
+def convolve1d_stub(input, weights, axis=-1, output=None, mode='reflect', cval=0.0, origin=0):
+    """stand-in for scipy.ndimage.convolve1d (the C kernel only): the library's own ``convolve`` wrapper, which splits
+    complex data and forwards axis / origin, is real repo code and runs unchanged on top of this."""
+    seq = input if isinstance(input, np.ndarray) else np.asarray(input)
+    if not sn.has_sym(seq) and not sn.has_sym(np.asarray(weights)):
+        return _REAL_CONVOLVE1D[0](input, weights, axis=axis, output=output, mode=mode, cval=cval, origin=origin)
+    if output is not None:
+        raise sn.Unsupported('convolve1d reference: output= not modelled')
+    ax = axis if axis >= 0 else seq.ndim + axis
+    if ax != 0:
+        moved = np.moveaxis(np.asarray(seq), ax, 0)
+        r = convolve1d_ref(moved, weights, axis=0, origin=origin, mode=mode)
+        r = np.moveaxis(r, 0, ax)
+    else:
+        r = convolve1d_ref(seq, weights, axis=0, origin=origin, mode=mode)
     return sn.normalize(r.view(sn.SymArr))
 
 
-_REAL_CONVOLVE = [None]
+_REAL_CONVOLVE1D = [None]
 
 
 def validate_convolve_stub(seed=0):
     """Differential run of the reference against the real C kernel (all rows,
     including the reflected boundary rows).  Returns number of comparisons."""
-    from numdifftools import extrapolation as ex
-    real = _REAL_CONVOLVE[0] or ex.convolve
+    from scipy.ndimage import convolve1d as real
     rng = np.random.default_rng(seed)
     n_cmp = 0
     for k in range(1, 10):
         for n in range(1, 18):
             for cols in (1, 2):
-                for cplx in (False, True):
-                    seq = rng.normal(size=(n, cols))
-                    if cplx:
-                        seq = seq + 1j * rng.normal(size=(n, cols))
-                    rule = rng.normal(size=k)
-                    n_r = k - 1
-                    a = real(seq, rule[::-1], axis=0, origin=n_r // 2)
-                    b = convolve1d_ref(seq.astype(object), rule[::-1], axis=0, origin=n_r // 2)
-                    b = np.asarray(b, dtype=complex if cplx else float)
+                seq = rng.normal(size=(n, cols))
+                rule = rng.normal(size=k)
+                n_r = k - 1
+                for origin in sorted({n_r // 2, 0, -(k // 2) if k > 1 else 0}):
+                    a = real(seq, rule[::-1], axis=0, origin=origin)
+                    b = convolve1d_ref(seq.astype(object), rule[::-1], axis=0, origin=origin)
+                    b = np.asarray(b, dtype=float)
                     if not np.allclose(a, b, rtol=1e-12, atol=1e-12):
-                        raise RuntimeError('convolve stub disagrees with scipy at k=%d n=%d' % (k, n))
+                        raise RuntimeError('convolve1d reference disagrees with scipy at k=%d n=%d origin=%d' % (k, n, origin))
                     n_cmp += 1
     return n_cmp
 
@@ -138,8 +143,9 @@ def traced(widen=True, merge_max=True, extra=None):
 
     ex = m['numdifftools.extrapolation']
     fd = m['numdifftools.finite_difference']
-    if _REAL_CONVOLVE[0] is None:
-        _REAL_CONVOLVE[0] = ex.convolve
+    if _REAL_CONVOLVE1D[0] is None:
+        from scipy.ndimage import convolve1d as _c1d
+        _REAL_CONVOLVE1D[0] = _c1d
     proxy = sn.NpProxy(widen=widen)
     try:
         for mod in m.values():
@@ -147,8 +153,7 @@ def traced(widen=True, merge_max=True, extra=None):
             if merge_max:
                 setg(mod, 'max', sn.sym_max)
                 setg(mod, 'min', sn.sym_min)
-        setg(ex, 'convolve', convolve_ref)
-        setg(fd, 'convolve', convolve_ref)
+        setg(ex, 'convolve1d', convolve1d_stub)
         setg(ex, 'linalg', LinalgProxy(ex.linalg))
         setg(fd, 'linalg', LinalgProxy(fd.linalg))
         for (mod, name, val) in (extra or []):
